@@ -132,6 +132,11 @@ func (s *c15) Gen(r *kit.Rng) (kit.Op, bool) {
 			if r.Chance(1, 3) {
 				return kit.Op{K: "parse_model", H: pick()}, true
 			}
+			if r.Chance(1, 4) {
+				// the public key with the opposite parity (-P): same X
+				// coordinate, a different key
+				return kit.Op{K: "newext", H: pick(), N: []int64{d, 1}}, true
+			}
 			return kit.Op{K: "newext", H: pick(), N: []int64{d}}, true
 		case 3:
 			idx := []uint32{0, 1, 2, 1<<31 - 1, 1 << 31, 1<<31 + 1, 0xffffffff, r.U32(), uint32(r.Intn(5))}[r.Intn(9)]
@@ -184,6 +189,36 @@ func sliceField(k *hdkeychain.ExtendedKey, name string) []byte {
 		return nil
 	}
 	return *(*[]byte)(unsafe.Pointer(f.UnsafeAddr()))
+}
+
+// allSliceFields reads every []byte field of the real key by position.
+func allSliceFields(k *hdkeychain.ExtendedKey) map[string][]byte {
+	out := map[string][]byte{}
+	v := reflect.ValueOf(k).Elem()
+	for i := 0; i < v.NumField(); i++ {
+		f := v.Field(i)
+		if f.Kind() == reflect.Slice && f.Type().Elem().Kind() == reflect.Uint8 {
+			out[v.Type().Field(i).Name] = *(*[]byte)(unsafe.Pointer(f.UnsafeAddr()))
+		}
+	}
+	return out
+}
+
+func isHDVersion(b []byte) bool {
+	for _, n := range c15Nets {
+		if bytes.Equal(b, n.priv[:]) || bytes.Equal(b, n.pub[:]) {
+			return true
+		}
+	}
+	return false
+}
+
+func lenMap(m map[string][]byte) map[string]int64 {
+	o := map[string]int64{}
+	for k, v := range m {
+		o[k] = int64(len(v))
+	}
+	return o
 }
 
 func allZero(b []byte) bool {
@@ -254,6 +289,11 @@ func (s *c15) Apply(o kit.Op) *kit.Violation {
 			if nm.Depth == 255 {
 				s.st.Probe("key-at-depth-255")
 			}
+		}
+		if o.Arg(1) == 1 && !nm.Private && len(nm.Key) == 33 {
+			nm.Key = append([]byte(nil), nm.Key...)
+			nm.Key[0] ^= 1
+			s.st.Probe("public-key-with-negated-point")
 		}
 		rk := hdkeychain.NewExtendedKey(append([]byte(nil), nm.Version[:]...), append([]byte(nil), nm.Key...), append([]byte(nil), nm.ChainCode[:]...), append([]byte(nil), nm.ParentFP[:]...), nm.Depth, nm.ChildNum, nm.Private)
 		s.add(rk, nm, "field-copy", o.H)
@@ -338,6 +378,19 @@ func (s *c15) Apply(o kit.Op) *kit.Violation {
 		for _, f := range []string{"key", "pubKey", "chainCode", "parentFP"} {
 			bufs[f] = sliceField(h.real, f)
 		}
+		// name-independent capture as well (field names are not part of the
+		// property): every byte-slice field except the one holding the
+		// network version bytes, which Zero is not required to wipe
+		extra := allSliceFields(h.real)
+		for name, b := range extra {
+			if _, named := bufs[name]; named {
+				continue
+			}
+			if len(b) == 4 && isHDVersion(b) {
+				continue // network version bytes (of any kind): not key material
+			}
+			bufs["field "+name] = b
+		}
 		for _, j := range s.live() {
 			if j != o.H {
 				if rel := s.related(o.H, j); rel != "" {
@@ -349,12 +402,12 @@ func (s *c15) Apply(o kit.Op) *kit.Violation {
 		h.real.Zero()
 		h.mod = nil
 		s.st.Fault("zero")
-		for _, f := range []string{"key", "pubKey", "chainCode", "parentFP"} {
+		for _, f := range kit.SortedKeys(lenMap(bufs)) {
 			if !allZero(bufs[f]) {
 				return kit.VK("erasure:buffer-not-zeroed", "erasure:buffer-not-zeroed:"+f, "after Zero() the buffer that held %s still contains %x", f, bufs[f])
 			}
 		}
-		if len(bufs["key"]) == 0 {
+		if len(bufs["key"]) == 0 && len(extra) == 0 {
 			// the unexported field names are not part of the property: after a
 			// refactoring the buffers may simply not be inspectable; the
 			// black-box erasure checks (zeroed marker, no private key) go on
